@@ -6,7 +6,6 @@ package main
 // out-dir layouts. Compared with the Lean generate plan; path functions vs path/filepath.
 
 import (
-	"bytes"
 	"context"
 	"encoding/json"
 	"fmt"
@@ -134,11 +133,13 @@ func runC17Scenario(s c17Scenario, idx int) (c17Result, string) {
 	cmd.Dir = filepath.Join(sandbox, s.Cwd)
 	cmd.Env = append(os.Environ(), "PATH="+fakeBinDir()+":"+os.Getenv("PATH"), "VERIF_FAKE_DIR="+scripts)
 	cmd.SysProcAttr = &syscall.SysProcAttr{Setpgid: true}
-	var stderr bytes.Buffer
-	cmd.Stderr = &stderr
-	cmd.Stdout = &stderr
+	errPath := filepath.Join(scripts, "stderr.txt")
+	errFile, _ := os.Create(errPath)
+	cmd.Stderr = errFile
+	cmd.Stdout = errFile
 	var res c17Result
 	err := cmd.Run()
+	errFile.Close()
 	if ee, ok := err.(*exec.ExitError); ok {
 		res.exit = ee.ExitCode()
 	} else if err != nil {
@@ -147,7 +148,9 @@ func runC17Scenario(s c17Scenario, idx int) (c17Result, string) {
 	if cmd.Process != nil {
 		syscall.Kill(-cmd.Process.Pid, syscall.SIGKILL)
 	}
-	res.stderr = stderr.String()
+	if b, err := os.ReadFile(errPath); err == nil {
+		res.stderr = string(b)
+	}
 	after := snapshot(sandbox)
 	res.diff = diffSnap(before, after)
 	for _, d := range res.diff {
